@@ -211,3 +211,16 @@ def document_decls(kind, root_element):
     """FileContents.<kind> of a whole document"""
     top = NamespaceTree()
     return [d for x in root_element['elements'] for d in decls_of(kind, x, top)]
+
+
+# ------------------------------------------------------------------ C15: an out event cannot answer or hand data back
+def event_checked(e):
+    """an out event with a reply type other than void, or with an out parameter, is refused; every other well-formed
+    event is accepted as written"""
+    from dznpy.json_ast import DznJsonError
+    if e['direction'] == 'out':
+        if e['signature']['type_name']['ids'] != ['void']:
+            raise DznJsonError('an out event has no reply value')
+        if [f for f in e['signature']['formals']['elements'] if f['direction'] == 'out']:
+            raise DznJsonError('an out event has no out parameter')
+    return event(e)
